@@ -3,6 +3,7 @@ Helper lemmas for C05 (BoC parser model `Model/BocParse.lean` against the spec e
 -/
 import TonVerif.Model.BocParse
 import TonVerif.Spec.BocEncode
+import TonVerif.Proofs.CrcFlip
 
 namespace TonVerif.Proofs.BocParse
 open TonVerif TonVerif.Model TonVerif.Model.BocParse
@@ -100,5 +101,362 @@ theorem readCells_length : ∀ (n : Nat) (data : Bytes) (size : Nat) (recs : Lis
         simp only [h2, Option.map_some, Option.some.injEq] at h
         subst h
         simp [ih _ _ _ h2]
+
+/-! ### header: necessary conditions for acceptance -/
+
+/-- what an accepted header implies: the fixed fields were readable, the total length is exactly the one they
+announce, and if the CRC flag is on, the last four bytes are the CRC-32C of everything before them. -/
+theorem header_accept (d : Bytes) (h : Header) (hh : deserializeBocHeader d = some h) :
+    ∃ f, readFields d = some f ∧ d.length = f.expectedLen ∧ h.fl = f.fl ∧ h.cellsNum = f.cells ∧
+      (f.fl.hasCrc = true → Model.crc32c (d.take (d.length - 4)) = some (d.drop (d.length - 4)) ∧ 4 ≤ d.length) := by
+  unfold deserializeBocHeader at hh
+  cases hf : readFields d with
+  | none => simp [hf] at hh
+  | some f =>
+    refine ⟨f, rfl, ?_⟩
+    simp only [hf, Option.bind_some] at hh
+    simp only [Option.bind_eq_some_iff] at hh
+    obtain ⟨rl, hA, idx, hB, hh⟩ := hh
+    by_cases hlen : d.length < f.hdrEnd + f.rootsLen + f.indexLen + f.tot
+    · simp [hlen] at hh
+    · simp only [hlen, if_false, Option.bind_eq_some_iff] at hh
+      obtain ⟨i, hC, hh⟩ := hh
+      by_cases hi : d.length = i
+      · simp only [hi, bne_self_eq_false, Bool.false_eq_true, if_false, Option.some.injEq] at hh
+        subst hh
+        refine ⟨?_, rfl, rfl, ?_⟩
+        · by_cases hc : f.fl.hasCrc = true
+          · simp only [hc, if_true] at hC
+            split at hC
+            · cases hC
+            · split at hC
+              · cases hC
+              · simp only [Option.some.injEq] at hC
+                simp [Fields.expectedLen, Fields.cellsStart, Fields.crcLen, hc]; omega
+          · rw [if_neg hc] at hC
+            simp only [Option.some.injEq] at hC
+            simp [Fields.expectedLen, Fields.cellsStart, Fields.crcLen, hc]; omega
+        · intro hc
+          simp only [hc, if_true] at hC
+          split at hC
+          · cases hC
+          · split at hC
+            · cases hC
+            · rename_i h1 h2
+              simp only [Option.some.injEq] at hC
+              have e : f.hdrEnd + f.rootsLen + f.indexLen + f.tot = d.length - 4 := by omega
+              rw [e] at h2
+              simp only [bne_iff_ne, ne_eq, Decidable.not_not] at h2
+              refine ⟨?_, by omega⟩
+              rw [h2]; congr 1
+              unfold pySlice
+              rw [show d.length - 4 + 4 = d.length by omega, List.take_length]
+      · simp [hi] at hh
+
+/-! ### header: the fixed fields of a prefix -/
+
+theorem pySlice_append_left {α : Type} (p t : List α) (a b : Nat) (hb : b ≤ p.length) :
+    pySlice (p ++ t) a b = pySlice p a b := by
+  unfold pySlice
+  rw [List.take_append_of_le_length hb]
+
+theorem readFlags_append (p t : Bytes) (h5 : 5 ≤ p.length) : readFlags (p ++ t) = readFlags p := by
+  unfold readFlags
+  have h4 : (p ++ t)[4]? = p[4]? := List.getElem?_append_left (by omega)
+  rw [pySlice_append_left p t 0 4 (by omega), h4]
+  have e1 : ¬ (p ++ t).length < 4 := by simp; omega
+  have e2 : ¬ p.length < 4 := by omega
+  rw [if_neg e1, if_neg e2]
+
+theorem readFields_len (d : Bytes) (f : Fields) (h : readFields d = some f) :
+    6 + 5 * f.fl.sizeBytes ≤ d.length ∧ 1 ≤ f.fl.sizeBytes := by
+  unfold readFields at h
+  cases hfl : readFlags d with
+  | none => simp [hfl] at h
+  | some fl =>
+    simp only [hfl, Option.bind_some] at h
+    split at h
+    · cases h
+    · cases h5 : d[5]? with
+      | none => simp [h5] at h
+      | some off =>
+        simp only [h5, Option.bind_some] at h
+        split at h
+        · cases h
+        · simp only [Option.some.injEq] at h
+          subst h
+          simp; omega
+
+theorem readFields_append (p t : Bytes) (f : Fields) (hp : readFields p = some f) (hl : f.hdrEnd ≤ p.length) :
+    readFields (p ++ t) = some f := by
+  have hlen := readFields_len p f hp
+  unfold readFields at hp ⊢
+  rw [readFlags_append p t (by omega)]
+  cases hfl : readFlags p with
+  | none => simp [hfl] at hp
+  | some fl =>
+    simp only [hfl, Option.bind_some] at hp ⊢
+    split at hp
+    · cases hp
+    · rename_i h1
+      have h5 : (p ++ t)[5]? = p[5]? := List.getElem?_append_left (by omega)
+      rw [h5]
+      cases h5' : p[5]? with
+      | none => simp [h5'] at hp
+      | some off =>
+        simp only [h5', Option.bind_some] at hp ⊢
+        split at hp
+        · cases hp
+        · rename_i h2
+          simp only [Option.some.injEq] at hp
+          subst hp
+          simp only [Fields.hdrEnd] at hl hlen
+          have : ¬ (p ++ t).length < 5 + (1 + 5 * fl.sizeBytes) := by simp; omega
+          simp only [this, h2, if_false, uintAt]
+          rw [pySlice_append_left p t _ _ (by omega), pySlice_append_left p t _ _ (by omega),
+            pySlice_append_left p t _ _ (by omega), pySlice_append_left p t _ _ (by omega)]
+
+/-- of a byte string and a proper extension of it at most one has an acceptable header. -/
+theorem header_prefix_unique (p t : Bytes) (hp : Header) (hd : Header)
+    (h1 : deserializeBocHeader p = some hp) (h2 : deserializeBocHeader (p ++ t) = some hd) : t = [] := by
+  obtain ⟨f, hf, hlen, -⟩ := header_accept p hp h1
+  obtain ⟨f', hf', hlen', -⟩ := header_accept (p ++ t) hd h2
+  have hle : f.hdrEnd ≤ p.length := by
+    rw [hlen]; simp only [Fields.expectedLen, Fields.cellsStart]; omega
+  rw [readFields_append p t f hf hle] at hf'
+  simp only [Option.some.injEq] at hf'
+  subst hf'
+  rw [List.length_append, hlen] at hlen'
+  exact List.eq_nil_of_length_eq_zero (by omega)
+
+/-! ### header: corruption of one byte -/
+
+theorem pySlice_set_out {α : Type} (d : List α) (j : Nat) (v : α) (a b : Nat) (h : j < a ∨ b ≤ j) :
+    pySlice (d.set j v) a b = pySlice d a b := by
+  unfold pySlice
+  apply List.ext_getElem?
+  intro i
+  simp only [List.getElem?_drop, List.getElem?_take]
+  by_cases hi : a + i < b
+  · simp only [hi, if_true]
+    rw [List.getElem?_set_ne (by omega)]
+  · simp [hi]
+
+theorem readFlags_set_ge5 (d : Bytes) (j v : Nat) (hj : 5 ≤ j) : readFlags (d.set j v) = readFlags d := by
+  unfold readFlags
+  rw [pySlice_set_out d j v 0 4 (by omega), List.getElem?_set_ne (by omega), List.length_set]
+
+theorem nat_xor_eq_self (a e : Nat) (h : a ^^^ e = a) : e = 0 := by
+  have : a ^^^ (a ^^^ e) = a ^^^ a := by rw [h]
+  rw [← Nat.xor_assoc, Nat.xor_self, Nat.zero_xor] at this
+  exact this
+
+theorem pySlice_0_4 (d : Bytes) (h : 4 ≤ d.length) : pySlice d 0 4 = [d[0], d[1], d[2], d[3]] := by
+  unfold pySlice
+  match d, h with
+  | a :: b :: c :: e :: rest, _ => simp
+
+/-- the three magics differ pairwise in every byte: no corruption of ONE byte turns a magic into a magic. -/
+theorem readFlags_set_lt4 (d : Bytes) (j e : Nat) (hj : j < 4) (he : e ≠ 0) (hl : 4 ≤ d.length)
+    (h1 : (readFlags d).isSome) : readFlags (d.set j (d[j]'(by omega) ^^^ e)) = none := by
+  have hne : d[j]'(by omega) ^^^ e ≠ d[j]'(by omega) := fun h => he (nat_xor_eq_self _ _ h)
+  generalize d[j]'(by omega) ^^^ e = v at hne
+  have hl' : 4 ≤ (d.set j v).length := by simpa using hl
+  unfold readFlags at h1 ⊢
+  rw [pySlice_0_4 _ hl'] 
+  rw [pySlice_0_4 _ hl] at h1
+  have e1 : ¬ d.length < 4 := by omega
+  have e2 : ¬ (d.set j v).length < 4 := by omega
+  rw [if_neg e1] at h1
+  rw [if_neg e2]
+  have hj4 : j = 0 ∨ j = 1 ∨ j = 2 ∨ j = 3 := by omega
+  simp only [magicGeneric, magicIdx, magicIdxCrc, beq_iff_eq, List.cons.injEq, and_true] at h1 ⊢
+  simp only [List.getElem_set]
+  rcases hj4 with rfl | rfl | rfl | rfl <;>
+  · split at h1
+    · rename_i hm; simp_all
+    · split at h1
+      · rename_i hm; simp_all
+      · split at h1
+        · rename_i hm; simp_all
+        · simp at h1
+
+/-- the flags a generic (`b5ee9c72`) header derives from its flag byte. -/
+def genFlags (fb : Nat) : Flags :=
+  { generic := true, hasIdx := fb.testBit 7, hasCrc := fb.testBit 6, hasCacheBits := fb.testBit 5,
+    flags := (if fb.testBit 4 then 16 else 0) * 2 + (if fb.testBit 3 then 8 else 0), sizeBytes := fb % 8 }
+
+theorem readFlags_set4 (d : Bytes) (v : Nat) (hl : 5 ≤ d.length) (fl fl' : Flags)
+    (h : readFlags d = some fl) (h' : readFlags (d.set 4 v) = some fl') :
+    (fl.generic = false → fl'.hasCrc = fl.hasCrc) ∧
+    (fl.generic = true → fl = genFlags (d[4]'(by omega)) ∧ fl' = genFlags v) := by
+  unfold readFlags at h h'
+  rw [pySlice_set_out d 4 v 0 4 (by omega), List.length_set] at h'
+  have e1 : ¬ d.length < 4 := by omega
+  rw [if_neg e1] at h h'
+  have g4 : (d.set 4 v)[4]? = some v := by rw [List.getElem?_set_self (by omega)]
+  have g4' : d[4]? = some (d[4]'(by omega)) := List.getElem?_eq_getElem (by omega)
+  rw [g4] at h'
+  rw [g4'] at h
+  simp only [Option.map_some] at h h'
+  by_cases m1 : (pySlice d 0 4 == magicGeneric) = true
+  · rw [if_pos m1] at h h'
+    simp only [Option.some.injEq] at h h'
+    subst h; subst h'
+    simp [genFlags]
+  · rw [if_neg m1] at h h'
+    by_cases m2 : (pySlice d 0 4 == magicIdx) = true
+    · rw [if_pos m2] at h h'
+      simp only [Option.some.injEq] at h h'
+      subst h; subst h'; simp
+    · rw [if_neg m2] at h h'
+      by_cases m3 : (pySlice d 0 4 == magicIdxCrc) = true
+      · rw [if_pos m3] at h h'
+        simp only [Option.some.injEq] at h h'
+        subst h; subst h'; simp
+      · rw [if_neg m3] at h
+        cases h
+
+theorem readFields_flags (d : Bytes) (f : Fields) (h : readFields d = some f) : readFlags d = some f.fl := by
+  unfold readFields at h
+  cases hfl : readFlags d with
+  | none => simp [hfl] at h
+  | some fl =>
+    simp only [hfl, Option.bind_some] at h
+    split at h
+    · cases h
+    · cases h5 : d[5]? with
+      | none => simp [h5] at h
+      | some off =>
+        simp only [h5, Option.bind_some] at h
+        split at h
+        · cases h
+        · simp only [Option.some.injEq] at h
+          subst h; rfl
+
+/-- rewriting byte 4 without changing the size leaves every other fixed field as it was. -/
+theorem readFields_set4 (d : Bytes) (v : Nat) (f f' : Fields)
+    (h : readFields d = some f) (h' : readFields (d.set 4 v) = some f') (hs : f'.fl.sizeBytes = f.fl.sizeBytes) :
+    f'.off = f.off ∧ f'.cells = f.cells ∧ f'.roots = f.roots ∧ f'.absent = f.absent ∧ f'.tot = f.tot := by
+  have hfl := readFields_flags d f h
+  have hfl' := readFields_flags _ f' h'
+  unfold readFields at h h'
+  simp only [hfl, hfl', Option.bind_some, List.length_set] at h h'
+  split at h
+  · cases h
+  · rw [if_neg (by rw [hs]; assumption)] at h'
+    rw [List.getElem?_set_ne (by omega)] at h'
+    cases h5 : d[5]? with
+    | none => simp [h5] at h
+    | some off =>
+      simp only [h5, Option.bind_some] at h h'
+      split at h
+      · cases h
+      · rw [if_neg (by rw [hs]; assumption)] at h'
+        simp only [Option.some.injEq] at h h'
+        rw [← h, ← h']
+        simp only [uintAt, hs]
+        rw [pySlice_set_out d 4 v _ _ (by omega), pySlice_set_out d 4 v _ _ (by omega),
+          pySlice_set_out d 4 v _ _ (by omega), pySlice_set_out d 4 v _ _ (by omega)]
+        simp
+
+theorem genFlags_xor64 (a : Nat) (h : a.testBit 6 = true) :
+    genFlags (a ^^^ 64) = { genFlags a with hasCrc := false } := by
+  have t7 : (64 : Nat).testBit 7 = false := by decide
+  have t6 : (64 : Nat).testBit 6 = true := by decide
+  have t5 : (64 : Nat).testBit 5 = false := by decide
+  have t4 : (64 : Nat).testBit 4 = false := by decide
+  have t3 : (64 : Nat).testBit 3 = false := by decide
+  have hm : (a ^^^ 64) % 8 = a % 8 := by
+    have := Nat.xor_mod_two_pow (a := a) (b := 64) (n := 3)
+    simpa using this
+  simp [genFlags, Nat.testBit_xor, t7, t6, t5, t4, t3, h, hm]
+
+/-- CRC-protected input, one byte corrupted by a non-zero xor pattern `e` (at byte 4, the flag byte, `e` must not
+touch bit 6 together with other bits): the header is no longer accepted. -/
+theorem header_crc_byte_error (d : Bytes) (hwf : Bytes.WF d) (h : Header) (hh : deserializeBocHeader d = some h)
+    (hc : h.fl.hasCrc = true) (j : Nat) (hj : j < d.length) (e : Nat) (he0 : 0 < e) (he : e < 256)
+    (h4 : j = 4 → e.testBit 6 = false ∨ e = 64) :
+    deserializeBocHeader (d.set j (d[j] ^^^ e)) = none := by
+  cases hh' : deserializeBocHeader (d.set j (d[j] ^^^ e)) with
+  | none => rfl
+  | some h' =>
+    exfalso
+    obtain ⟨f, hf, hlen, hfl, -, hcrc⟩ := header_accept d h hh
+    obtain ⟨f', hf', hlen', -, -, hcrc'⟩ := header_accept _ h' hh'
+    rw [hfl] at hc
+    have hcrc := hcrc hc
+    rw [List.length_set] at hlen' hcrc'
+    have hne : d[j] ^^^ e ≠ d[j] := fun hx => by have := nat_xor_eq_self _ _ hx; omega
+    by_cases hc' : f'.fl.hasCrc = true
+    · -- both pass the CRC comparison
+      obtain ⟨c1, l4⟩ := hcrc
+      obtain ⟨c2, -⟩ := hcrc' hc'
+      by_cases hjb : j < d.length - 4
+      · -- error in the protected part: same stored CRC, different computed CRC
+        have htake : List.take (d.length - 4) (d.set j (d[j] ^^^ e)) = (List.take (d.length - 4) d).set j (d[j] ^^^ e) := by
+          rw [List.take_set]
+        have hdrop : List.drop (d.length - 4) (d.set j (d[j] ^^^ e)) = List.drop (d.length - 4) d := by
+          rw [List.drop_set]; simp [hjb]
+        rw [htake, hdrop, ← c1] at c2
+        have hj2 : j < (List.take (d.length - 4) d).length := by simp; omega
+        have hwf2 : Bytes.WF (List.take (d.length - 4) d) := fun b hb => hwf b (List.mem_of_mem_take hb)
+        have key := TonVerif.Proofs.CrcFlip.model_crc32c_flip_ne _ hwf2 j hj2 e he0 he
+        apply key
+        have eg : (List.take (d.length - 4) d)[j] = d[j] := by simp
+        rw [eg]; exact c2
+      · -- error in the stored CRC
+        have htake : List.take (d.length - 4) (d.set j (d[j] ^^^ e)) = List.take (d.length - 4) d := by
+          rw [List.take_set]; rw [List.set_eq_of_length_le]; simp; omega
+        rw [htake, c1] at c2
+        simp only [Option.some.injEq] at c2
+        have := congrArg (fun l => l[j - (d.length - 4)]?) c2
+        simp only [List.getElem?_drop] at this
+        rw [show d.length - 4 + (j - (d.length - 4)) = j by omega] at this
+        rw [List.getElem?_set_self hj, List.getElem?_eq_getElem hj] at this
+        simp only [Option.some.injEq] at this
+        exact hne this.symm
+    · -- the CRC flag got lost: only the magic or the flag byte can do that
+      have hF := readFields_flags d f hf
+      have hF' := readFields_flags _ f' hf'
+      have hl6 := (readFields_len d f hf).1
+      by_cases j5 : 5 ≤ j
+      · rw [readFlags_set_ge5 d j _ j5, hF] at hF'
+        simp only [Option.some.injEq] at hF'
+        rw [← hF'] at hc'; exact hc' hc
+      · by_cases j4 : j < 4
+        · have := readFlags_set_lt4 d j e j4 (by omega) (by omega) (by rw [hF]; rfl)
+          rw [this] at hF'; cases hF'
+        · have j4 : j = 4 := by omega
+          subst j4
+          obtain ⟨g1, g2⟩ := readFlags_set4 d _ (by omega) f.fl f'.fl hF hF'
+          by_cases hg : f.fl.generic = true
+          · obtain ⟨ea, eb⟩ := g2 hg
+            have ha6 : d[4].testBit 6 = true := by rw [ea] at hc; simpa [genFlags] using hc
+            have hb6 : (d[4] ^^^ e).testBit 6 = false := by
+              rw [eb] at hc'; simpa [genFlags] using hc'
+            rw [Nat.testBit_xor, ha6] at hb6
+            have he6 : e.testBit 6 = true := by simpa using hb6
+            rcases h4 rfl with h6 | h64
+            · rw [h6] at he6; cases he6
+            · subst h64
+              rw [genFlags_xor64 _ ha6, ← ea] at eb
+              have hs : f'.fl.sizeBytes = f.fl.sizeBytes := by rw [eb]
+              obtain ⟨o1, o2, o3, o4, o5⟩ := readFields_set4 d _ f f' hf hf' hs
+              have : f'.expectedLen + 4 = f.expectedLen := by
+                simp only [Fields.expectedLen, Fields.cellsStart, Fields.hdrEnd, Fields.rootsLen, Fields.indexLen,
+                  Fields.crcLen, o1, o2, o3, o5, eb, hc]
+                simp
+              omega
+          · have hg' : f.fl.generic = false := by simpa using hg
+            rw [g1 hg'] at hc'; exact hc' hc
+
+/-- flip bit `k` (0 = most significant bit of byte 0) of a byte string. -/
+def flipBit (d : Bytes) (k : Nat) : Bytes := d.set (k / 8) (d.getD (k / 8) 0 ^^^ (128 >>> (k % 8)))
+
+theorem flipMask_props (k : Nat) : 0 < 128 >>> (k % 8) ∧ 128 >>> (k % 8) < 256 ∧
+    ((128 >>> (k % 8)).testBit 6 = false ∨ 128 >>> (k % 8) = 64) := by
+  have : k % 8 = 0 ∨ k % 8 = 1 ∨ k % 8 = 2 ∨ k % 8 = 3 ∨ k % 8 = 4 ∨ k % 8 = 5 ∨ k % 8 = 6 ∨ k % 8 = 7 := by omega
+  rcases this with h | h | h | h | h | h | h | h <;> rw [h] <;> decide
 
 end TonVerif.Proofs.BocParse
